@@ -708,11 +708,31 @@ class Interp:
             else:
                 fr = Frame(self, r[1], r[1])
                 self._bind_redefined(fr, r[1], r[2])
+                self._note_foreign_table(r[1], home_name, r[2])
                 v = self.eval(r[2], fr)
         else:
             raise AnalysisError(f"cannot resolve {module}.{name}")
         self.module_cache[key] = v
         return v
+
+    def _note_foreign_table(self, module, name, node):
+        """a sizeable literal table of a module for which the rule supplied probe tables, read although no probe stands for
+        it: the reader is fed from data the probes do not cover (recorded in self.foreign_tables for the rule to judge)"""
+        probed = {k.partition(".")[0] for k, v in self.symconst.items() if isinstance(v, (str, list, dict, tuple)) and not isinstance(v, sp.Basic)}
+        if module not in probed or f"{module}.{name}" in self.symconst:
+            return
+        size = 0
+        if isinstance(node, ast.Constant) and isinstance(node.value, str):
+            size = node.value.count("\n")
+        elif isinstance(node, (ast.Tuple, ast.List, ast.Set)):
+            size = len(node.elts)
+        elif isinstance(node, ast.Dict):
+            size = len(node.keys)
+        elif isinstance(node, ast.Call) and node.args and isinstance(node.args[0], (ast.Tuple, ast.List, ast.GeneratorExp)):
+            size = len(getattr(node.args[0], "elts", ())) 
+        if size >= 8:
+            raise AnalysisError(f"{module}.{name}, an embedded table of {size} entries for which the analysis has no probe, is read while probe tables "
+                                f"stand for the other tables of {module}: the probes do not cover the package's data")
 
     def _bind_redefined(self, fr, module, value_node):
         """a module-level statement sees, for a function name defined several times in the module (def _ ...; def _ ...),
